@@ -70,10 +70,12 @@ def meta_of(r):
     return m
 
 
-def outcome(data, op, a, preload=False):
-    """run one call on a file image; -> comparable outcome"""
+def outcome(data, op, a, preload=False, reader=None):
+    """run one call on a file image (on `reader` if given: a reader that has already served other calls); -> comparable outcome"""
     from seismic_zfp.read import SgzReader
     tmp = None
+    if reader is not None:
+        return _call(reader, op, a)
     if op == 'variant_headers':         # a path on disk: the reader's local-file code, not a file-like object
         tmp = os.path.join(env.subdir(f'c18p-{os.getpid()}'), 'partial.sgz')
         with open(tmp, 'wb') as f:
@@ -85,6 +87,10 @@ def outcome(data, op, a, preload=False):
         if isinstance(e, (KeyboardInterrupt, SystemExit, MemoryError)):
             raise
         return ('raise', 'open:' + type(e).__name__)
+    return _call(r, op, a)
+
+
+def _call(r, op, a):
     try:
         with env.quiet():
             if op == 'meta':
@@ -109,6 +115,32 @@ def outcome(data, op, a, preload=False):
     if out[0] == 'header':
         return ('header', out[1])
     return ('value', codec.bits(np.asarray(out[1], dtype=np.float32)).tolist())
+
+
+def _sweep_worker(item):
+    """a salvage loop: ONE reader on the partial file, every call in turn, then every call again (what failed the first time must not
+    come back as data the second time)"""
+    from seismic_zfp.read import SgzReader
+    si, kind, cut = item
+    S = par.G['sources'][si]
+    data = S['partials'][(kind, cut)]
+    try:
+        with env.quiet():
+            r = SgzReader(CountingFile(data, name='partial.sgz'))
+    except BaseException as e:
+        if isinstance(e, (KeyboardInterrupt, SystemExit, MemoryError)):
+            raise
+        return []
+    out = []
+    for sweep in (1, 2):
+        for ci, (op, a) in enumerate(S['calls']):
+            if op in ('variant_headers', 'meta', 'tracefield'):
+                continue
+            got = _call(r, op, a)
+            out.append((sweep, ci, got))
+            if got[0] == 'raise':       # ... and what has just been refused is asked again at once (a retry)
+                out.append((f'{sweep} retry', ci, _call(r, op, a)))
+    return out
 
 
 def _worker(item):
@@ -222,6 +254,24 @@ def run(run):
         if not ok and op == 'meta' and isinstance(detail, dict):
             case['diff'] = sorted(detail)
         run.check(ok, f'C18.raise-or-same[{op}]', case, detail, 'raise or the complete answer')
+    # the same partial files read by ONE long-lived reader, twice over
+    sweeps = []
+    for si, S in enumerate(S_all):
+        pk = [k for k in S['partials'] if k[0] == 'prefix' and '+' not in k[1]]
+        pk = [pk[i] for i in sorted(set(np.linspace(0, len(pk) - 1, num=min(len(pk), 10 if quick else 40)).astype(int).tolist()))] if pk else []
+        sweeps += [(si, kind, cut) for kind, cut in pk]
+    for (si, kind, cut), outs in zip(sweeps, par.pmap(_sweep_worker, sweeps, chunksize=1)):
+        S = S_all[si]
+        if isinstance(outs, par.Crash):
+            run.fail('C18.raise-or-same[sweep]', {'route': S['label'], 'kind': kind, 'cut': cut}, f'worker died {outs}', 'raise or the complete answer')
+            continue
+        for sweep, ci, got in outs:
+            op, a = S['calls'][ci]
+            case = {'route': S['label'], 'kind': kind, 'cut': cut, 'op': op, 'args': a, 'len': len(S['partials'][(kind, cut)]),
+                    'cutclass': cutclass(S, kind, cut), 'history': f'one reader, every call in turn, sweep {sweep}'}
+            run.case(case, nontrivial=True)
+            ok = got[0] == 'raise' or got == S['complete'][ci]
+            run.check(ok, f'C18.raise-or-same[{op}]', case, got[1] if got[0] == 'raise' else 'a different value', 'raise or the complete answer')
 
 
 def cutclass(S, kind, cut):
@@ -274,6 +324,31 @@ def replay(run, rep):
             data = wseam.apply_prefix(rec2.writes(), int(case['cut']), base=rec2.initial or b'')
         else:
             data = full[:int(case['cut'])]
-        got = outcome(data, case['op'], case['args'], preload=case['kind'] == 'trunc-preload')
         want = outcome(full, case['op'], case['args'])
+        if case.get('history'):         # one reader, every call in turn, twice: the call is judged at the sweep recorded
+            from seismic_zfp.read import SgzReader
+            fc = session.load_files([session.FileCase(p, label=label)], run)[0]
+            allk = sgzfile.trace_keys()
+            others = [k for k in allk if k not in fc.stored]
+            calls = calls_for(fc.F, list(fc.stored) + (others[:4] + others[-2:] if run.tier == 'quick' else others))
+            with env.quiet():
+                r = SgzReader(CountingFile(data, name='partial.sgz'))
+            got = None
+            for sweep in (1, 2):
+                for op, a in calls:
+                    if op in ('variant_headers', 'meta', 'tracefield'):
+                        continue
+                    g = _call(r, op, a)
+                    hit = op == case['op'] and list(a) == list(case['args'])
+                    if hit and case['history'].endswith(f'sweep {sweep}'):
+                        got = g
+                    if g[0] == 'raise':
+                        g2 = _call(r, op, a)
+                        if hit and case['history'].endswith(f'sweep {sweep} retry'):
+                            got = g2
+            if got is None:
+                return
+            run.check(got[0] == 'raise' or got == want, rep['clause'], case, got[1] if got[0] == 'raise' else 'different', None)
+            return
+        got = outcome(data, case['op'], case['args'], preload=case['kind'] == 'trunc-preload')
         run.check(got[0] == 'raise' or got == want, rep['clause'], case, got[1] if got[0] == 'raise' else 'different', None)
